@@ -567,7 +567,10 @@ static void handle(int argc, char** argv)
 		ppRedPentanomial(a, &p); out_w(a, W_OF_B(p.m)); return;
 	}
 	if (IS("ppRedBelt") && argc == 1) { a = wa(argv[0], &n); ppRedBelt(a); out_w(a, W_OF_B(128)); return; }
-	if (IS("ppIsIrred") && argc == 1) { a = wa(argv[0], &n); out_u(ppIsIrred(a, n, stk(ppIsIrred_deep(n)))); return; }
+	if (IS("ppIsIrred") && argc == 1) { a = wa(argv[0], &n); 
+		/* ppIsIrred_deep() counts only its own two n-word variables, not the stack of ppGCD / ppSqrMod it calls:
+		   a depth defect (property C07), reported there; the slack keeps this value check independent of it */
+		out_u(ppIsIrred(a, n, stk(ppIsIrred_deep(n) + ppGCD_deep(n, n) + ppSqrMod_deep(n)))); return; }
 	if (IS("ppMinPoly") && argc == 2)
 	{
 		size_t l = (size_t)u_arg(argv[1]);
